@@ -25,7 +25,7 @@ Context {T : Type} (N : NumOps T).
 Variable fill : T.
 Variable ldlt_solve : dmat (T:=T) -> dmat (T:=T) -> dmat (T:=T).
 Variable jacobi_svd : dmat (T:=T) -> svd_res (T:=T).
-Implicit Types (s : src_ls (T:=T)) (A M : dmat (T:=T)).
+Implicit Types (s : src_ls (T:=T)) (M : dmat (T:=T)).
 
 (* the generated record read as the model's state *)
 Definition abs (s : src_ls (T:=T)) : ls_state (T:=T) :=
@@ -518,6 +518,97 @@ Proof.
     assert (Hwf1 : ls_wf s1) by (eapply step_wf; eauto).
     rewrite <- A1 in E2, Hwf1. destruct (IH _ _ _ A3 Hwf1 Hrd E2) as (B1 & B2 & B3).
     cbn [src_run fst snd]. rewrite A2, B2. split; [exact B1|split; [reflexivity|exact B3]].
+Qed.
+
+(* ---------------- history independence, on the generated transformers ---------------- *)
+Lemma run_dims_app ops1 : forall ops2 s, run_dims ops1 s -> run_dims ops2 (fst (src_run ops1 s)) -> run_dims (ops1 ++ ops2) s.
+Proof.
+  induction ops1 as [|o r IH]; intros ops2 s H1 H2; [exact H2|].
+  destruct H1 as (Ho & Hr). split; [exact Ho|]. apply IH; [exact Hr|exact H2].
+Qed.
+
+Lemma src_run_app ops1 : forall ops2 s, fst (src_run (ops1 ++ ops2) s) = fst (src_run ops2 (fst (src_run ops1 s))).
+Proof. induction ops1 as [|o r IH]; intros ops2 s; [reflexivity|]. cbn [app src_run fst]. apply IH. Qed.
+
+Definition is_load_op (o : ls_op (T:=T)) : bool := match o with OpSetDataSize _ | OpSetRow _ _ _ _ => true | _ => false end.
+
+Lemma load_run_dims ops : forall s, forallb is_load_op ops = true ->
+  run_dims ops s /\ estimateSize_ (fst (src_run ops s)) = estimateSize_ s.
+Proof.
+  induction ops as [|o r IH]; intros s H; [split; [exact I|reflexivity]|].
+  cbn in H. apply andb_true_iff in H. destruct H as (Ho & Hr).
+  destruct (IH (fst (src_step s o)) Hr) as (I1 & I2). cbn [run_dims src_run fst]. rewrite I2.
+  destruct o; try discriminate; cbn [op_dims src_step fst].
+  - split; [split; [exact I|exact I1]|]. unfold src_setDataSize. cbv zeta. destruct (Nat.ltb (length (Y_ s)) n); reflexivity.
+  - split; [split; [exact I|exact I1]|]. reflexivity.
+Qed.
+
+Lemma load_ops_are_loads n rows ys ws : forallb is_load_op (load_ops N n rows ys ws) = true.
+Proof. unfold load_ops, row_ops. cbn [forallb is_load_op andb]. apply forallb_forall. intros o Ho. apply in_map_iff in Ho. destruct Ho as (i & <- & _). reflexivity. Qed.
+
+Lemma problem_run_dims n rows ys ws A (b : list T) s : length A = estimateSize_ s ->
+  run_dims (load_ops N n rows ys ws ++ [OpSetPrecond A b]) s.
+Proof.
+  intros HA. destruct (load_run_dims (load_ops N n rows ys ws) s (load_ops_are_loads n rows ys ws)) as (H1 & H2).
+  apply run_dims_app; [exact H1|]. cbn [run_dims op_dims]. rewrite H2. split; [exact HA|exact I].
+Qed.
+
+(* an estimate op on a state where the model defines it: the generated transformer returns the model's vector *)
+Lemma est_out_src (D : LsDictOK N) s est : ldlt_dims -> svd_dims -> src_dims s -> ls_wf (abs s) -> ls_est_ok (abs s) = true ->
+  (est = OpEstimateChol \/ est = OpEstimateSVD \/ est = OpWeightedEstimate) ->
+  exists x, snd (src_step s est) = OutVec x /\ est_out N inverse_of_src svd_of_src true est (abs s) = Some x.
+Proof.
+  intros Hl Hsv Hd Hwf Hok [->|[->| ->]]; cbn [src_step snd est_out]; eexists; (split; [reflexivity|]).
+  - rewrite <- (tie_chol D s Hl Hd Hwf Hok). reflexivity.
+  - rewrite <- (tie_svd D s Hsv Hd Hwf Hok). reflexivity.
+  - rewrite <- (tie_weighted D s Hl Hd Hwf Hok). reflexivity.
+Qed.
+
+Lemma problem_defined k n rows ys ws A (b : list T) u t o : ready k u -> (1 <= n)%nat ->
+  (forall i, (i < n)%nat -> length (nth i rows []) = k) ->
+  ls_run N inverse_of_src svd_of_src fill true (load_ops N n rows ys ws ++ [OpSetPrecond A b]) u = Some (t, o) ->
+  ls_wf t /\ ls_est_ok t = true.
+Proof.
+  intros R Hn Hrows Hrun.
+  destruct (run_load N inverse_of_src svd_of_src fill true k n rows ys ws u R Hn Hrows) as (u1 & p1 & Hrun1 & W1 & _ & _ & _ & _ & Ok1 & _).
+  rewrite run_app, Hrun1 in Hrun. cbn [ls_run ls_step] in Hrun. inversion Hrun; subst. split; [exact W1|exact Ok1].
+Qed.
+
+(* THE HEADLINE ON THE CODE AS WRITTEN: run ANY history [hist] (estimate size kept, defined in the model, preconditioner arguments
+   with estimateSize_ rows) with the generated transformers on one object, then load a problem and call any of the three estimate
+   functions: the returned vector is the one a freshly constructed object returns *)
+Theorem src_history_independent (D : LsDictOK N) : ldlt_dims -> svd_dims ->
+  forall k hist (ms : ls_state (T:=T)) outs n rows ys ws A (b : list T) est,
+  forallb keeps_estimate_size hist = true ->
+  ls_run N inverse_of_src svd_of_src fill true hist (ls_new1 N k) = Some (ms, outs) ->
+  run_dims hist (src_new1 N k) -> length A = k ->
+  (1 <= n)%nat -> (forall i, (i < n)%nat -> length (nth i rows []) = k) ->
+  (est = OpEstimateChol \/ est = OpEstimateSVD \/ est = OpWeightedEstimate) ->
+  let prob := load_ops N n rows ys ws ++ [OpSetPrecond A b] in
+  exists x,
+    snd (src_step (fst (src_run prob (fst (src_run hist (src_new1 N k))))) est) = OutVec x /\
+    snd (src_step (fst (src_run prob (src_new1 N k))) est) = OutVec x.
+Proof.
+  intros Hl Hsv k hist ms outs n rows ys ws A b est Hkeep Hrun Hrd HA Hn Hrows Hest prob.
+  destruct (sim_run D Hl Hsv hist (src_new1 N k) ms outs (dims_new1 k) (wf_new1 N k) Hrd Hrun) as (A1 & _ & A3).
+  set (sh := fst (src_run hist (src_new1 N k))) in *.
+  assert (Rs : ready k ms) by (eapply run_ready; [apply ready_new1|exact Hkeep|exact Hrun]).
+  assert (Wh : ls_wf (abs sh)) by (rewrite A1; exact (proj1 Rs)).
+  assert (Kh : estimateSize_ sh = k). { change (ls_k (abs sh) = k). rewrite A1. exact (proj1 (proj2 Rs)). }
+  destruct (history_independent N inverse_of_src svd_of_src fill true k hist ms outs n rows ys ws A b est Hkeep Hrun Hn Hrows)
+    as (t1 & o1 & t2 & o2 & R1 & R2 & E).
+  rewrite <- A1 in R1.
+  destruct (sim_run D Hl Hsv prob sh t1 o1 A3 Wh (problem_run_dims n rows ys ws A b sh ltac:(congruence)) R1) as (B1 & _ & B3).
+  change (ls_new1 N k) with (abs (src_new1 N k)) in R2.
+  destruct (sim_run D Hl Hsv prob (src_new1 N k) t2 o2 (dims_new1 k) (wf_new1 N k)
+              (problem_run_dims n rows ys ws A b (src_new1 N k) HA) R2) as (C1 & _ & C3).
+  rewrite A1 in R1.
+  destruct (problem_defined k n rows ys ws A b ms t1 o1 Rs Hn Hrows R1) as (W1 & Ok1).
+  destruct (problem_defined k n rows ys ws A b _ t2 o2 (ready_new1 N k) Hn Hrows R2) as (W2 & Ok2).
+  rewrite <- B1 in W1, Ok1, E. rewrite <- C1 in W2, Ok2, E.
+  destruct (est_out_src D _ est Hl Hsv B3 W1 Ok1 Hest) as (x1 & X1 & Y1).
+  destruct (est_out_src D _ est Hl Hsv C3 W2 Ok2 Hest) as (x2 & X2 & Y2).
+  rewrite Y1, Y2 in E. inversion E; subst. exists x2. split; assumption.
 Qed.
 
 End Tie.
